@@ -185,6 +185,21 @@ def Conn.invhyb (c : Conn K) : Prop :=
 
 end affine
 
+/-! ### constructors of the model classes -/
+
+/-- how a constructor treats one optional scalar argument -/
+inductive ArgRule where
+  | ifNone   -- default substituted only for a missing (None) argument
+  | ifFalsy  -- default substituted for every falsy argument (None, and also a numeric zero)
+deriving DecidableEq, Repr
+
+/-- the value the object ends up with: `none` = the default (a free symbol for a matrix entry, a
+    zero source) was substituted -/
+def ArgRule.apply {K : Type} [OfNat K 0] [DecidableEq K] : ArgRule → Option K → Option K
+  | _, none => none
+  | .ifNone, some v => some v
+  | .ifFalsy, some v => if v = 0 then none else some v
+
 /-! ### existence pivots (G3) -/
 section pivots
 variable {K : Type} [Add K] [Mul K] [Neg K] [Sub K] [OfNat K 1]
